@@ -163,7 +163,8 @@ def indexRepositories (dryRun : Bool) (pending : List String) (repos : List Repo
 def runSync (force : Bool) (cwd : String) (desired : List Repo) (inv : Inv) : Run :=
   let actions := planPrune cwd desired inv
   let (ev, inv1) := applyRemovals actions (!force) inv
-  let r := indexRepositories (!force) [] desired inv1
+  let pending := if force then [] else actions.map (·.shard)
+  let r := indexRepositories (!force) pending desired inv1
   if r.err then ⟨ev ++ r.events, r.inv, true⟩
   else ⟨ev ++ r.events ++ (if force then [] else [Event.passF]), r.inv, false⟩
 
